@@ -2,6 +2,7 @@ from core import Case, hexs
 import core
 PID = "C16"
 DRIVER = "drv_heap"
+MATRIX_QUICK = [core.CONFIG_BZERO]   # both zeroing back-ends on every run
 MATRIX = core.MATRIX_ZEROING     # thorough tier: -O0/-O2/-O3, clang, explicit_bzero on/off, mlock on/off
 RULE = ("operation histories on two real secure_buffer<uint8_t, LockOnAlloc> objects (both template variants) with operator new/delete interposed: contents of both "
         "variables after every operation vs the heap model, every block scanned at delete (only poison or zero bytes allowed), the caller's rvalue string inspected "
